@@ -17,7 +17,7 @@ import (
 	"go.etcd.io/bbolt/verifh/model"
 )
 
-const c02Rule = "(A) generated sequences over {begin reader, close reader, dump reader, read through a reader, writer transaction with a generated workload ending in commit, rollback or a FAILED commit (armed I/O fault on a write/sync/truncate call, or a size limit), probe, reopen} with up to 6 simultaneously open readers of different ages, both backends, freelist sync on/off, initial map sizes that do and do not force a remap - executed on one goroutine (a remap is announced by the hook before it takes the lock; the harness then compares and closes the readers, a legal schedule). After EVERY commit, rollback and at every close each open reader's complete view (buckets, keys, values, sequences, forward and backward order, tx id) is compared with the model of the version it started from. (B) the same oracle with real goroutines: reader goroutines loop begin/dump/compare/yield/dump/compare/rollback while a writer goroutine commits a generated workload; hook callbacks yield at every I/O call. Non-trivial (A) = some reader stayed open across a commit that released pages of the reader's version and a later commit, still during the reader's life, took pages from the free list (page sets from the independent decoder); (B) = a reader observed >=2 different versions during the run and dumps overlapped commits. Distinct = SHA-256 of the op log."
+const c02Rule = "(A) generated sequences over {begin reader, close reader, dump reader, read through a reader, writer transaction with a generated workload ending in commit, rollback or a FAILED commit (armed I/O fault on a write/sync/truncate call, or a size limit), probe, reopen} with up to 6 simultaneously open readers of different ages, some of them begun from inside a commit (the I/O hook begins a reader while the writer stands at a generated data write, sync, truncate or at the very call an armed fault is about to fail - e.g. the final sync after the meta write), both backends, freelist sync on/off, initial map sizes that do and do not force a remap - executed on one goroutine (a remap is announced by the hook before it takes the lock; the harness then compares and closes the readers, a legal schedule). After EVERY commit, rollback and at every close each open reader's complete view (buckets, keys, values, sequences, forward and backward order, tx id) is compared with the model of the version it started from. (B) the same oracle with real goroutines: reader goroutines loop begin/dump/compare/yield/dump/compare/rollback while a writer goroutine commits a generated workload; hook callbacks yield at every I/O call. Non-trivial (A) = some reader stayed open across a commit that released pages of the reader's version and a later commit, still during the reader's life, took pages from the free list (page sets from the independent decoder); (B) = a reader observed >=2 different versions during the run and dumps overlapped commits. Distinct = SHA-256 of the op log."
 
 func c02Cfg(excluded *int) gen.Cfg {
 	cfg := c04Cfg(excluded)
@@ -26,6 +26,7 @@ func c02Cfg(excluded *int) gen.Cfg {
 	cfg.ReaderBoost = 3
 	cfg.CommitWeight = 35
 	cfg.Faults = 3 // commits that fail on an injected write/sync/truncate error are "roll backs" too
+	cfg.MidReaders = 20 // readers begun from inside a commit: while the writer stands at one of its I/O calls
 	return cfg
 }
 
